@@ -1,5 +1,5 @@
 CONSTANTS HW = 7
-          Margins = {21, 2}
+          Margins = {21}
           Anchors = {1}
           NMax = 8
           GenMod = 1
